@@ -64,6 +64,34 @@ func c19WriteBody(x *engine.X) {
 			return n
 		}
 	}
+	// a non-blocking transport that takes part of an item and then reports would-block: the call fails, the rest of
+	// the item stays queued, and after the transport drained the next call must send it exactly once
+	blockAfter := -1
+	if !async {
+		blockAfter = []int{-1, 1, 3, 5}[x.Deviate(4, "blocking write: would-block after k bytes of the first item")]
+	}
+	if blockAfter >= 0 {
+		taken := 0
+		prev := vs.Accept
+		vs.Accept = func(n int) int {
+			k := n
+			if prev != nil {
+				k = prev(n)
+			}
+			if taken+k > blockAfter && taken < blockAfter {
+				k = blockAfter - taken
+			}
+			taken += k
+			return k
+		}
+		vs.WriteErr = func() error {
+			if taken >= blockAfter && blockAfter >= 0 {
+				blockAfter = -1 // once
+				return sonicerrors.ErrWouldBlock
+			}
+			return nil
+		}
+	}
 	deferred := async && x.Deviate(2, "async write deferred") == 1
 	if deferred {
 		vs.DeferWrite = func() bool { return true }
@@ -72,6 +100,7 @@ func c19WriteBody(x *engine.X) {
 	cc, _ := sonic.NewCodecConn[[]byte, []byte](vs, frame.NewCodec(src), src, dst)
 	var want []byte
 	var sizes []int
+	pendingTail := false
 	x.Guard("codecconn.write/panic", func() {
 		for i, it := range items {
 			sizes = append(sizes, len(it))
@@ -88,10 +117,19 @@ func c19WriteBody(x *engine.X) {
 			} else {
 				n, err = cc.WriteNext(it)
 			}
+			want = append(want, refEncode(it)...)
 			if err != nil {
+				if errors.Is(err, sonicerrors.ErrWouldBlock) && !async {
+					// legitimate: part of the item went out; the remainder must go out, once, with the next call
+					if string(vs.Out) != string(want[:len(vs.Out)]) {
+						x.Fail("codecconn.write/peer-bytes", "after a would-block in item %d the peer holds bytes that are not a prefix of the items written", i)
+					}
+					pendingTail = true
+					continue
+				}
 				x.Fail("codecconn.write/error", "item %d (%d bytes): %v", i, len(it), err)
 			}
-			want = append(want, refEncode(it)...)
+			pendingTail = false
 			if string(vs.Out) != string(want) {
 				sig := "codecconn.write/peer-bytes"
 				if len(vs.Out) < len(want) && string(vs.Out) == string(want[:len(vs.Out)]) {
@@ -105,6 +143,16 @@ func c19WriteBody(x *engine.X) {
 			}
 		}
 	})
+	if pendingTail {
+		// the last call hit the would-block: flush what is left with one more (empty) item
+		if _, err := cc.WriteNext(nil); err != nil {
+			x.Fail("codecconn.write/error", "write after the would-block: %v", err)
+		}
+		want = append(want, refEncode(nil)...)
+		if string(vs.Out) != string(want) {
+			x.Fail("codecconn.write/peer-bytes", "after a would-block and one more write the peer holds %d bytes, expected %d (every item once)", len(vs.Out), len(want))
+		}
+	}
 	x.Note("write async=%v deferred=%v sizes=%v", async, deferred, sizes)
 	if len(items) > 1 || deferred || vs.Accept != nil {
 		x.Nontrivial()
